@@ -29,7 +29,14 @@ def f(a, b=2):
     return a
 class K:
     y = 3
-"""
+{walk}"""
+# cfg.walk: a lazy attribute (PEP 562 module-level __getattr__ + __dir__) resolved only while the members are enumerated
+WALK = {
+    "none": "",
+    "ok": 'def __dir__():\n    return [*globals(), "lazyattr"]\ndef __getattr__(name):\n    if name == "lazyattr":\n        return 7\n    raise AttributeError(name)\n',
+    "dep": 'def __dir__():\n    return [*globals(), "lazyattr"]\ndef __getattr__(name):\n    if name == "lazyattr":\n        import zz_c15_missing_dep\n    raise AttributeError(name)\n',
+    "exit": 'def __dir__():\n    return [*globals(), "lazyattr"]\ndef __getattr__(name):\n    if name == "lazyattr":\n        raise SystemExit(4)\n    raise AttributeError(name)\n',
+}
 # cfg.pathmut: what every executable body does to sys.path before it can fail
 PATHMUT = {
     "none": "",
@@ -78,7 +85,19 @@ static const char *CODE =
   "    raise SystemExit(3)\n"
   "if _flt == 'missingdep':\n"
   "    import zz_c15_missing_dep\n"
-  "X = 1\n";
+  "X = 1\n"
+  "_wk = _os.environ.get('C15_WALK', 'none')\n"
+  "if _wk != 'none':\n"
+  "    def __dir__():\n"
+  "        return [*globals(), 'lazyattr']\n"
+  "    def __getattr__(name, _wk=_wk):\n"
+  "        if name == 'lazyattr':\n"
+  "            if _wk == 'dep':\n"
+  "                import zz_c15_missing_dep\n"
+  "            if _wk == 'exit':\n"
+  "                raise SystemExit(4)\n"
+  "            return 7\n"
+  "        raise AttributeError(name)\n";
 static int exec_mod(PyObject *m) {
     PyObject *d = PyModule_GetDict(m);
     PyObject *r = PyRun_String(CODE, Py_file_input, d, d);
@@ -154,7 +173,7 @@ class Builder:
             fh.write(text)
 
     def _code(self, m: str, extra: str = "") -> str:
-        return BODY.format(fault=FAULT_CODE[self.cfg["fault"][m]], hostile=PATHMUT[self.pathmut]) + extra
+        return BODY.format(fault=FAULT_CODE[self.cfg["fault"][m]], hostile=PATHMUT[self.pathmut], walk=WALK[self.cfg.get("walk", "none")]) + extra
 
     def _module(self, m: str, kind: str, directory: str, stem: str, extra: str = ""):
         """Write module `m` of `kind` as <directory>/<stem>.<suffix>."""
